@@ -8,7 +8,7 @@ from ..world import evse_levels
 
 np = sut.np
 ID = "C05"
-RUNS = {"quick": 5000, "thorough": 150000}
+RUNS = {"quick": 8000, "thorough": 150000}
 BUDGET = {"quick": 45, "thorough": 780}
 RULE = ("worlds with max_recompute in {None,1,2,3,7}, idle stretches, sessions finishing early, all parties; at some "
         "calls the party scribbles over every object it was handed; non-trivial = >=1 timer-only invocation and >=1 "
